@@ -193,11 +193,20 @@ func (r *Runtime) SetRawMetatable(v Value, meta *Table) {
 		tbl.SetMetatable(meta)
 		if !RawGet(meta, MetaFieldGcValue).IsNil() {
 			r.addFinalizer(tbl, luagc.Finalize)
+		} else {
+			// The new metatable has no finalizer: a copy of the table made
+			// when it was marked with a previous metatable must not be
+			// finalized with that one.
+			r.weakRefPool.Mark(tbl, 0)
 		}
 	case UserDataType:
 		udata := v.AsUserData()
 		udata.SetMetatable(meta)
-		r.addFinalizer(udata, udata.MarkFlags())
+		if flags := udata.MarkFlags(); flags != 0 {
+			r.addFinalizer(udata, flags)
+		} else {
+			r.weakRefPool.Mark(udata, 0) // see the table case
+		}
 	default:
 		// Should there be an error here?
 	}
